@@ -968,7 +968,39 @@ fn collect_packages_in_item(
             }
         }
         ast::Item::Package(_) | ast::Item::Import(_) | ast::Item::Interface(_) => {}
-        ast::Item::TypeAlias(_) => {}
+        ast::Item::TypeAlias(a) => collect_packages_in_type(&a.ty, imports, used),
+    }
+}
+
+fn collect_packages_in_type(
+    ty: &crate::go::goty::GoType,
+    imports: &HashSet<String>,
+    used: &mut HashSet<String>,
+) {
+    use crate::go::goty::GoType;
+    match ty {
+        GoType::TName { name } => {
+            if let Some((pkg, _)) = name.split_once('.')
+                && imports.contains(pkg)
+            {
+                used.insert(pkg.to_string());
+            }
+        }
+        GoType::TPointer { elem } | GoType::TArray { elem, .. } | GoType::TSlice { elem } => {
+            collect_packages_in_type(elem, imports, used)
+        }
+        GoType::TFunc { params, ret_ty } => {
+            for p in params {
+                collect_packages_in_type(p, imports, used);
+            }
+            collect_packages_in_type(ret_ty, imports, used);
+        }
+        GoType::TStruct { fields, .. } => {
+            for (_, t) in fields {
+                collect_packages_in_type(t, imports, used);
+            }
+        }
+        _ => {}
     }
 }
 
